@@ -67,6 +67,16 @@ impl Backend {
                 local_path: self.dir.join(format!("clone{i}")), branch: "main".into(),
                 remote: Some(self.dir.join("remote.git").to_string_lossy().to_string()), local_only: false,
                 encryption_secret: B_SECRET.to_vec(), git_path: None }.into_server()),
+            // a remote is configured but the clone works offline
+            "gitoffline" => block_on(ServerConfig::Git {
+                local_path: self.dir.join(format!("clone{i}")), branch: "main".into(),
+                remote: Some(self.dir.join("remote.git").to_string_lossy().to_string()), local_only: true,
+                encryption_secret: B_SECRET.to_vec(), git_path: None }.into_server()),
+            // a remote that has no branch yet: the first add_version creates it
+            "gitfresh" => block_on(ServerConfig::Git {
+                local_path: self.dir.join(format!("clone{i}")), branch: "main".into(),
+                remote: Some(self.dir.join("remote.git").to_string_lossy().to_string()), local_only: false,
+                encryption_secret: B_SECRET.to_vec(), git_path: None }.into_server()),
             "cloud" => {
                 let c = block_on(VerifCloud::new(self.store.clone().unwrap(), i, B_SECRET.to_vec()))?;
                 Ok(Box::new(c))
@@ -93,6 +103,10 @@ impl Backend {
         if kind == "cloud" {
             b.store = Some(MemStore::new(nhandles + 2, 2));
             set_randint(Some(255));
+        }
+        if kind == "gitoffline" || kind == "gitfresh" {
+            std::fs::create_dir_all(b.dir.join("remote.git")).unwrap();
+            run_git(&b.dir.join("remote.git"), &["init", "--bare", "-b", "main"]);
         }
         if kind == "gitremote" {
             std::fs::create_dir_all(b.dir.join("remote.git")).unwrap();
@@ -144,7 +158,7 @@ fn payload_of(b: &[u8]) -> Option<usize> {
 
 pub fn gen_backend(seed: u64, id: usize, kind: &str, faults: bool, big: bool) -> CaseOut {
     let mut rng = Rng::new(seed ^ (id as u64).wrapping_mul(0xA3B195354A39B70D) ^ (kind.len() as u64) << 24 ^ if faults { 0x11 } else { 0 });
-    let nh = match kind { "git" => 1, "gitremote" => 2, _ => rng.range(1, 3) };
+    let nh = match kind { "git" | "gitoffline" | "gitfresh" => 1, "gitremote" => 2, _ => rng.range(1, 3) };
     let mut be = Backend::new(kind, nh, &format!("be-{kind}-{id}"));
     let mut canon: HashMap<Uuid, usize> = HashMap::new();
     canon.insert(Uuid::nil(), 0);
@@ -180,7 +194,7 @@ pub fn gen_backend(seed: u64, id: usize, kind: &str, faults: bool, big: bool) ->
                 // learn which failpoints this backend passes, then arm one of them
                 let names: Vec<&str> = match kind {
                     "local" => vec!["local.add_version.between_insert_and_latest"],
-                    "git" | "gitremote" => vec!["git.add_version.after_version_file", "git.add_version.after_meta", "git.add_version.after_commit"],
+                    "git" | "gitremote" | "gitoffline" | "gitfresh" => vec!["git.add_version.after_version_file", "git.add_version.after_meta", "git.add_version.after_commit"],
                     _ => vec![],
                 };
                 if !names.is_empty() {
@@ -258,11 +272,17 @@ pub fn gen_backend(seed: u64, id: usize, kind: &str, faults: bool, big: bool) ->
                     if let Some(fp) = &fp_name {
                         feat("faults", &mut feats);
                         script.push(json!(format!("handle {h}: add_version(parent {pcanon}, payload {pl}) interrupted at {fp}: {e:#}")));
-                        // restart: every handle is reopened on the same directory / store
-                        for i in 0..nh {
-                            if let Err(e) = be.reopen(i) {
-                                problems.push(format!("{kind}: reopening after a fault at {fp} failed: {e:#}"));
+                        // restart: every handle is reopened on the same directory / store -- always after
+                        // a stop; after an error return the handles are as often simply used further
+                        if stop_mode || rng.chance(50) {
+                            for i in 0..nh {
+                                if let Err(e) = be.reopen(i) {
+                                    problems.push(format!("{kind}: reopening after a fault at {fp} failed: {e:#}"));
+                                }
                             }
+                        } else {
+                            feat("faults_without_restart", &mut feats);
+                            script.push(json!("the handles are used further without a restart"));
                         }
                         // the version is either fully accepted or not visible at all
                         match std::panic::catch_unwind(std::panic::AssertUnwindSafe(|| block_on(be.handles[h].get_child_version(puuid)))) {
@@ -347,6 +367,33 @@ pub fn gen_backend(seed: u64, id: usize, kind: &str, faults: bool, big: bool) ->
             }
         }
         feat("calls", &mut feats);
+    }
+    // a late restart: what was accepted is still served afterwards
+    if !chain.is_empty() && kind != "http" {
+        for i in 0..nh {
+            if let Err(e) = be.reopen(i) {
+                problems.push(format!("{kind}: reopening at the end failed: {e:#}"));
+            }
+        }
+        script.push(json!("every handle is reopened"));
+        for _ in 0..rng.range(1, 3) {
+            let h = rng.below(nh);
+            let parent = if rng.chance(40) { 0 } else { chain[rng.below(chain.len())] };
+            match std::panic::catch_unwind(std::panic::AssertUnwindSafe(|| block_on(be.handles[h].get_child_version(ids[parent])))) {
+                Err(_) => problems.push(format!("{kind}: get_child_version panicked")),
+                Ok(Err(e)) => problems.push(format!("{kind}: get_child_version failed: {e:#}")),
+                Ok(Ok(GetVersionResult::NoSuchVersion)) => {
+                    items.push(pair(ctor("BGetChild", vec![n_(parent)]), c0("BNoSuch")));
+                    script.push(json!(format!("handle {h}: get_child_version({parent}) -> none")));
+                }
+                Ok(Ok(GetVersionResult::Version { version_id, history_segment, .. })) => {
+                    let cid = canon.get(&version_id).copied().unwrap_or(9999);
+                    let pl = payload_of(&history_segment).unwrap_or(9999);
+                    items.push(pair(ctor("BGetChild", vec![n_(parent)]), ctor("BVersion", vec![n_(cid), n_(pl)])));
+                    script.push(json!(format!("handle {h}: get_child_version({parent}) -> {cid}")));
+                }
+            }
+        }
     }
     if kind == "http" {
         use crate::httpsrv::Hostile;
